@@ -30,6 +30,17 @@ def check(chk):
     # relay: what earlier handlers relayed reaches later handlers only through the per-handler merge of the *current* kwargs
     from sa.rules.c01 import _merge_and_condition
     _merge_and_condition(chk, chk.repo.func(EV, EM + "._run_handlers"))
+    # the queue-event runner as well: a handler's condition is evaluated at that handler's turn (after the waits of all earlier handlers),
+    # on the merged kwargs
+    _merge_and_condition(chk, chk.repo.func(EV, EM + "._run_handlers_sequential"))
+    # "in priority order" includes handlers registered through replace_handler: the priority it is given is the priority it registers with
+    from sa.helpers import forwarded
+    rh_ = chk.repo.func(EV, EM + ".replace_handler")
+    ah_ = chk.repo.func(EV, EM + ".add_handler")
+    chk.analysed(rh_)
+    ac_ = [c for c in rh_.calls() if call_attr(c) == "add_handler"]
+    chk.need(len(ac_) == 1, "FLOW-1", "replace_handler registers through add_handler", rh_)
+    forwarded(chk, "FLOW-1", rh_, ac_[0], ah_, same=["event", "handler", "priority"], require_all=True)
     _table0(chk)
     _type1(chk)
 
@@ -786,6 +797,7 @@ def battery():
         M("queue event aborted by a handler returning False", E, "            handler.callback(queue=queue, **merged_kwargs)\n", "            result = handler.callback(queue=queue, **merged_kwargs)\n            if result is False:\n                break\n", "DOM-4"),
         M("merge fast path decided by a stale flag", E, "        result = None\n        for handler in self.registered_handlers[event][:]:", "        result = None\n        has_kwargs = bool(kwargs)\n        for handler in self.registered_handlers[event][:]:", "FLOW-1", also=[(E, "            if handler.kwargs and kwargs:", "            if handler.kwargs and has_kwargs:")]),
         M("refused start waits on its queue", "mpf/core/mode.py", "        if self.config['mode']['game_mode'] and not (self.machine.game and self.player):", "        if self.config['mode']['use_wait_queue'] and 'queue' in kwargs:\n            self._mode_start_wait_queue = kwargs['queue']\n            self._mode_start_wait_queue.wait()\n\n        if self.config['mode']['game_mode'] and not (self.machine.game and self.player):", "PAIR-2"),
+        M("replace_handler registers at the default priority", EV, "        return self.add_handler(event, handler, priority, **kwargs)", "        return self.add_handler(event, handler, **kwargs)", "FLOW-1"),
     ]
 
 
